@@ -114,6 +114,12 @@ CHECKS.update({
    text="Partial by design: decides the atan2 quadrant/axis table over all sign combinations, the exact-branch identities of asinh/acosh/atanh/log1p/expm1 (the argument handed to log equals the defining argument; domain and sign handling), r >= 0 and r^2 = sum x^2 for norm2/norm3/norm/norm_, the composition of the coordinate conversions, and sum/sum1/sum2/mean/dot/copy/swap/fill/zero/push/roll (+strided) = their definitions for lengths 0..4 (6) in both configurations. NOT decided: accuracy in ulps of any transcendental evaluation, asymptotic branches, overflow-freedom of the norms.",
    note=E2NOTE + REALNOTE + " No installed solver decides transcendental accuracy; that clause of C11 is outside this check."),
 })
+CHECKS.update({
+ "C10": dict(engine="llsym", cat="model_checking", design="4/C10",
+   technique="symbolic execution of src/complex.c + inline complex.h (emitted via LIBA_COMPLEX_C) in the all-fallback and the libm-bound configuration, a_real as z3 Real, libm calls as fresh reals with sign/range/monotonicity/parity contracts; nlsat decides field identities, inverse pairs, constant relations and ISO C Annex G sign/range tables per quadrant",
+   text="Partial by design. Decided: field arithmetic incl. all real/imaginary-scalar and in-place forms and the inverse pairs (mul/div by the same number or scalar, inv(inv z), z*inv z); relations between the math.h constants; for the configuration with every A_HAVE_C* undefined (never compiled by the test suite): principal-value sign/range tables of csqrt, clog, catan, catanh per open quadrant, casinh/cacosh against the Annex G table of casin/cacos taken as a contract, the real-argument variants, reciprocal families = inv o f, log2/log10 = log / ln b; for the libm-bound configuration: argument/result plumbing of 14 wrappers. NOT decided: accuracy in machine-precision units for any transcendental evaluation, values on the cuts, pow/exp, the direct Annex G proof for the casin/cacos bodies (no solver verdict).",
+   note=E2NOTE + REALNOTE + " Contracts for libm follow ISO C F.10; the accuracy clause of C10 is outside this check."),
+})
 NOT_YET = {}
 
 def main():
